@@ -864,6 +864,7 @@ func Run(o *hx.Out, g *hx.Rng, tier string) {
 		n = 2500
 	}
 	w := &world{o: o, g: g, tier: tier}
+	w.fixedAll()
 	for i := 0; i < n; i++ {
 		c := cfg{forge: i%3 == 1, bigMsg: i%10 == 9}
 		w.history(c)
